@@ -116,6 +116,14 @@ def State.locked (s : State) (a : String) : Option Coins :=
   | some acc => if acc.kind = .cva then lockedCoinsCva acc s.now else some []
   | none => some []
 
+/-- effect of a successful `SendCoins`: balances move; an absent recipient gets a base account -/
+def State.applySend (s : State) (src dst : String) (c : Coins) : State :=
+  let b1 := s.bal.set src (CoinList.add (s.balance src) (neg c))
+  let b2 := b1.set dst (CoinList.add ((b1.get? dst).getD []) c)
+  { s with bal := b2,
+           accts := if (s.accts.get? dst).isSome then s.accts else s.accts.set dst { kind := .base, num := s.nextNum },
+           nextNum := if (s.accts.get? dst).isSome then s.nextNum else s.nextNum + 1 }
+
 /-- `subUnlockedCoins` + `addCoins` + account creation of `SendCoins` -/
 def State.send (s : State) (src dst : String) (c : Coins) : Outcome State :=
   if !coinsValid c then .err else
@@ -123,15 +131,9 @@ def State.send (s : State) (src dst : String) (c : Coins) : Outcome State :=
   | none => .panic
   | some lk =>
     -- per coin: spendable = balance − locked (Coin.Sub panics when negative)
-    let bad := c.any (fun kv => amountOf (s.balance src) kv.1 - amountOf lk kv.1 < 0)
-    if bad then .panic else
-    let short := c.any (fun kv => amountOf (s.balance src) kv.1 - amountOf lk kv.1 < kv.2)
-    if short then .err else
-    let b1 := s.bal.set src (CoinList.add (s.balance src) (neg c))
-    let b2 := b1.set dst (CoinList.add ((b1.get? dst).getD []) c)
-    let (accts, num) := if (s.accts.get? dst).isSome then (s.accts, s.nextNum)
-                        else (s.accts.set dst { kind := .base, num := s.nextNum }, s.nextNum + 1)
-    .ok { s with bal := b2, accts := accts, nextNum := num }
+    if c.any (fun kv => amountOf (s.balance src) kv.1 - amountOf lk kv.1 < 0) then .panic else
+    if c.any (fun kv => amountOf (s.balance src) kv.1 - amountOf lk kv.1 < kv.2) then .err else
+    .ok (s.applySend src dst c)
 
 /-- `SendCoinsFromModuleToAccount(cfevesting, dst, c)` -/
 def State.sendFromModule (s : State) (dst : String) (c : Coins) : Outcome State :=
